@@ -183,6 +183,16 @@ func (g *c18Gen) generate(thorough bool, n int) {
 	ins("plan:points-1-more", pts(1, func(i int) *jv { return jObj("a", jInt(1)) }), fill)
 	ins("plan:point-size-over", pts(1, func(i int) *jv { return jObj("a", jStr(strings.Repeat("x", 300))) }))
 	ins("plan:point-size-at", pts(1, func(i int) *jv { return jObj("a", jStr(strings.Repeat("x", 195))) }))
+	// an update that is small on its own but makes the STORED point larger than the plan allows (140 + 120 bytes of
+	// payload under a limit of 200): whatever the answer, no stored point may exceed the limit afterwards
+	grow := spec("setup", "valid", "POST", "/v2/collections/tcol1/points", "tina", ctJ,
+		pts(1, func(i int) *jv { return jObj("_id", jStr(c18Id(0x100).String()), "a", jStr(strings.Repeat("x", 140))) }).JSON())
+	for k, other := range []string{"b", "a"} {
+		u := spec([]string{"plan:update-merged-size-over", "plan:update-replaced-size-at"}[k], "valid", "PUT", "/v2/collections/tcol1/points", "tina", ctJ,
+			pts(1, func(i int) *jv { return jObj("_id", jStr(c18Id(0x100).String()), other, jStr(strings.Repeat("y", 120))) }).JSON())
+		u.Setup = []xspec{mk("tcol1"), grow}
+		g.add(u)
+	}
 	ins("plan:points-10000", pts(10000, func(i int) *jv { return jObj() }))
 	ins("invalid:points-10001", pts(10001, func(i int) *jv { return jObj() }))
 	ins("invalid:points-0", pts(0, nil))
@@ -579,6 +589,7 @@ type c18Result struct {
 	status  int
 	panic   bool
 	changed bool
+	over    bool
 	died    bool
 	done    bool
 }
@@ -626,10 +637,10 @@ func c18RunBatch(scratch string, batch int, specs []xspec, timeout time.Duration
 					last = i
 				}
 			case "R":
-				if len(p) == 5 {
+				if len(p) == 6 {
 					i, _ := strconv.Atoi(p[1])
 					res[i].status, _ = strconv.Atoi(p[2])
-					res[i].panic, res[i].changed, res[i].done = p[3] == "true", p[4] == "true", true
+					res[i].panic, res[i].changed, res[i].over, res[i].done = p[3] == "true", p[4] == "true", p[5] == "true", true
 				}
 			case "E":
 				complete = true
@@ -736,7 +747,7 @@ func runC18(rc *runCtx) error {
 				auxNames[fi][h] = nm
 				return nm
 			})
-			term += fmt.Sprintf(" (mkObs %d %s %s %s)", r.status, cBool(r.panic), cBool(r.changed), cBool(r.died))
+			term += fmt.Sprintf(" (mkObs %d %s %s %s %s)", r.status, cBool(r.panic), cBool(r.changed), cBool(r.died), cBool(r.over))
 			cfs[fi].Add(term)
 			total++
 			// statistics
